@@ -1,35 +1,9 @@
-# Per-property configuration of the zsim driver.
-REAL_LIB = ['src/*.c of /repo compiled from the working tree (libzvbi_ut.a, clang ASan+UBSan+trace-pc-guard)']
-STUB_BASE = ['broadcast channel / multiplexer (seeded scheduler)', 'fault injector']
-
-PROPS = {
- 'C09': {
-  'bin': 'w_c09', 'world': 'c09', 'level': 'exploration',
-  'level_text': 'seeded exploration of multiplex schedules x packet faults (tens of thousands of runs per quick check) against a reference reassembler; both XDS consumers (vbi_xds_demux and the service decoder path) run real code under ASan+UBSan; sampling, not proof',
-  'level_note': 'trusted: the reference reassembler (written from the statement), the simulated field-2 multiplexer, clang sanitizers; payload bytes restricted to 0x20-0x7F; class/type outside the documented tables and NUL-pad-then-more-payload packets are checked for safety and content but may be delivered or not',
-  'design_ref': 'DESIGN.md section 6 (C09)',
-  'quick': {'runs': 40000, 'budget_s': 25, 'workers': 16},
-  'thorough': {'runs': 4000000, 'budget_s': 600, 'workers': 16, 'det_sample': 200},
-  'rule': 'one evaluation = one simulated run: 1-4 XDS packet sources, a caption source and an idle source multiplexed pair by pair '
-          'by the seeded scheduler (continue codes inserted on resumption), faults attached to packets; non-trivial = the reference '
-          'delivered >= 2 valid packets and >= 1 packet was interrupted and resumed; distinct = distinct event-log hash',
-  'fault_kinds': ['fault_checksum', 'fault_parity', 'fault_nostart', 'fault_midnul', 'fault_noterm', 'fault_restart', 'fault_parity_term'],
-  'components': {'real': ['src/xds_demux.c', 'src/caption.c (xds_separator, xds_decoder)', 'src/vbi.c (vbi_decode, events)'] ,
-                 'stub': ['field-2 multiplexer = seeded scheduler over source tasks', 'fault injector (parity/checksum/start/terminator/pad)']},
-  'assumptions': ['reference reassembler written from the property statement (EIA-608 XDS framing rules)',
-                  'payload bytes are 0x20-0x7F as XDS requires; packets with a NUL pad followed by more payload are treated as undetermined for delivery (size/safety still checked)'],
- },
- 'C15': {
-  'bin': 'w_c15', 'world': 'c15', 'level': 'exploration',
-  'quick': {'runs': 30000, 'budget_s': 30, 'workers': 16},
-  'thorough': {'runs': 3000000, 'budget_s': 600, 'workers': 16, 'det_sample': 200},
-  'level_text': 'seeded exploration of packet interleavings (selected IDL/PFC sources, foreign addresses/streams, ordinary pages) x block sizes and alignments x dropped/corrupted packets against payload-level reference lists; encoders written from EN 300 708; real demultiplexers under ASan+UBSan fed from exactly 42-byte heap buffers; sampling, not proof',
-  'level_note': 'trusted: the IDL-A and PFC encoders (mine), the classification of blocks as must/may/must-not be delivered under faults (PFC: a block must be delivered when every page it touches is undamaged - resynchronisation at the next page header is accepted; IDL: the original copy arriving intact must be delivered), clang sanitizers',
-  'design_ref': 'DESIGN.md section 6 (C15)',
-  'rule': 'one evaluation = one simulated run: 0-40 IDL packets of the selected address (with repeats), 0-28 PFC blocks (sizes 0-2047, every end alignment) laid out into pages, foreign IDL/PFC sources and page noise, interleaved packet by packet by the seeded scheduler; faults attached to packets; non-trivial = at least 3 deliveries and more than 10 task switches; distinct = distinct event-log hash',
-  'fault_kinds': ['fault_idl_drop', 'fault_idl_crc', 'fault_idl_ham2', 'fault_idl_ham1', 'fault_pfc_drop', 'fault_pfc_ham2', 'fault_pfc_ham1'],
-  'components': {'real': ['src/idl_demux.c', 'src/pfc_demux.c', 'src/hamm.c'], 'stub': ['Teletext packet multiplexer = seeded scheduler over source tasks', 'IDL-A / PFC encoders', 'fault injector (drop, CRC, Hamming single/double)']},
-  'assumptions': ['CRC convention for implicit continuity index derived algebraically (EN 300 708 text not available offline); payload-level oracle is independent of it',
-                  'a dummy byte is not appended when the 8th equal byte is the last data byte of a packet'],
- },
-}
+# Per-property configuration of the zsim driver: collected from bin/props.d/*.py,
+# each defining FRAGMENT = {"Cxx": {...}}.
+import glob, importlib.util, os
+PROPS = {}
+for _f in sorted(glob.glob(os.path.join(os.path.dirname(os.path.abspath(__file__)), 'props.d', '*.py'))):
+    _s = importlib.util.spec_from_file_location('frag_' + os.path.basename(_f)[:-3], _f)
+    _m = importlib.util.module_from_spec(_s)
+    _s.loader.exec_module(_m)
+    PROPS.update(_m.FRAGMENT)
